@@ -58,6 +58,13 @@ CLAIMED = {
         "compared with a dense per-base Python model and every input is compared with its snapshot after each call.",
         "Holds on the explored region; the small-contig cores are complete. count_overlap / intersect are only checked for values on internally non-overlapping sets (their sweep has no meaning otherwise).",
         "exhaustive small-domain enumeration + Hypothesis sampling, reference-model oracle (dense per-base arrays)"),
+    "C09": (
+        "Generated genomes, tracks and expression trees: Hypothesis builds 1..4 chromosomes, bedGraph / interval tracks covering all "
+        "constructor branches (start at 0 or later, end at size or earlier, gaps, empty chromosomes; int, float, bool) and an expression tree "
+        "over + - * < > == & | ~ with scalars on either side, closed by to_dict, get_data, str, sum or histogram; the result is compared with "
+        "the same expression evaluated by NumPy on dense arrays.",
+        "Holds on the explored region only. In-memory (global) genomic arrays; the streamed per-chromosome variant is covered by C11.",
+        "Hypothesis generation of data and expression trees, reference-model oracle (NumPy on dense arrays)"),
     "C15": (
         "Fault injection over generated inputs: one format violation of each class is injected at every record position of a well-formed file; "
         "exhaustive over small files x every chunk size x lazy/eager x plain/gzip, sampled for larger files of nine formats. Oracle: an exception "
